@@ -537,6 +537,8 @@ class Data(object):
                         if len(I) == 0 or self.dim_agg_length is not None:
                             if input.ensemble is None or input.ensemble.shape[-1] == 0:
                                 verif.util.error("%s does not contain '%s'" % (self.get_names()[i], field.name()))
+                            if field.quantile < 0 or field.quantile > 1:
+                                verif.util.error("Cannot compute quantile level %g from the ensemble: must be between 0 and 1" % field.quantile)
                             num_members = input.ensemble.shape[-1]
                             if field.quantile < get_lower_cdf(num_members) or field.quantile > get_upper_cdf(num_members):
                                 verif.util.warning("In %s, ensemble doesn't have enough members to accurately get quantile level %s" % (self.get_names()[i], field.quantile))
